@@ -209,5 +209,5 @@ func shuffledKeepDup(t *rapid.T, xs []string) []string {
 func init() { register("C01", checkC01) }
 
 func TestC01(t *testing.T) {
-	runProp(t, "C01", checkC01, nil, part[c01Case]{"engines", scale(700, 8000), genC01})
+	runProp(t, "C01", checkC01, nil, part[c01Case]{"engines", scale(2000, 10000), genC01})
 }
